@@ -12,7 +12,8 @@ EXPLANATION = (
     "__getstate__ returns and __setstate__ unpacks the same five fields in the same order; Proxy state element i is restored "
     "from index i, with the URI travelling as str(uri) and re-parsed by core.URI; no field that enters the hashed tuple is "
     "assigned an unhashable container; the unix-socket prefix, its slice offset, the location separator and the bracket rule "
-    "agree between printer and parser, the printer uses constant format strings only, ports are parsed with int(); for every field whose truthiness the "
+    "agree between printer and parser, the printer uses constant format strings only and emits the fields verbatim, ports are parsed with int(); strings are stored "
+    "by the name server exactly as given; for every field whose truthiness the "
     "printer uses to choose the text form the parser rejects the falsy value; the name server stores text and re-parses on lookup."
 )
 
